@@ -1,4 +1,5 @@
 import NflowsModel.Audit.Tool
 import NflowsModel.Properties.C18
+import NflowsModel.Properties.C18L
 
 #audit_namespace Properties.C18
